@@ -240,6 +240,23 @@ func tamperings(u universe, q [][]byte, p *smt.Proof, root []byte) []tamperT {
 			return nil
 		})
 	}
+	// composite forgeries: the honest proof plus one more query that claims something about another key, placed on a
+	// path of its own choosing (bitmap) and backed by made-up sibling hashes. The verifier must not ignore it.
+	all := append(append([][]byte{}, u.keys...), u.probes...)
+	for ki, fk := range all {
+		for vi, fv := range [][]byte{vals[1], {}} {
+			for _, bm := range [][]byte{{0x01}, {0x03}, {0x80}} {
+				ki, fk, vi, fv, bm := ki, fk, vi, fv, bm
+				add(fmt.Sprintf("forged-extra-query-key%d-val%d-bitmap%x", ki, vi, bm), func(tq [][]byte, tp *smt.Proof, _ *[]byte) [][]byte {
+					tp.Queries = append(tp.Queries, &smt.QueryProof{Key: append(codec.Hex{}, fk...), Value: append(codec.Hex{}, fv...), Bitmap: append(codec.Hex{}, bm...)})
+					for j := 0; j < 8; j++ {
+						tp.SiblingHashes = append(tp.SiblingHashes, bytes.Repeat([]byte{0x60 + byte(j)}, 32))
+					}
+					return append(tq, fk)
+				})
+			}
+		}
+	}
 	add("other-root", func(tq [][]byte, tp *smt.Proof, r *[]byte) [][]byte { (*r)[0] ^= 1; return nil })
 	add("empty-root", func(tq [][]byte, tp *smt.Proof, r *[]byte) [][]byte {
 		*r = append([]byte{}, ref.EmptyHash...)
